@@ -7,6 +7,7 @@ CONSTANTS
   DevMatchRawPath = FALSE
   DevEmptyListMeansNoList = FALSE
   DevClimbAndReturn = FALSE
+  DevIndexNotJudged = FALSE
 INVARIANT AppliedToServed
 INVARIANT RefusalIs6x
 CHECK_DEADLOCK FALSE
